@@ -135,6 +135,18 @@ example : ∃ en ∈ table, ∃ e ∈ en.events, e.kind = Kind.acc Field.referen
 example : ∃ en ∈ table, ∃ e ∈ en.events, e.kind = Kind.acc Field.eready_list true ∧
     underDesignated en e Field.eready_list = false ∧ confined en e Field.eready_list = true := by decide +kernel
 
+/-- **Flag and list change together.**  Every write of `daemon->have_new` is made while
+    `new_connections_mutex` is held (and such writes exist), i.e. inside the critical section that
+    inserts into / detaches the hand-over list: no `MHD_add_connection` from another thread can
+    land between the detach and the clearing of the flag. -/
+theorem have_new_paired : haveNewPairedOk table = true := by decide +kernel
+
+/-- **A resume shortens the wait.**  In each of the three event loops (select, poll, epoll) the
+    result of `resume_suspended_connections` reaches, by data / control flow in the AST, the
+    timeout argument of the following select / poll / epoll_wait as a forced zero; only the loop
+    that runs exclusively in thread-per-connection mode discards it. -/
+theorem resume_forces_zero_timeout : resumeTimeoutOk resumeWaitSites = true := by decide +kernel
+
 /-- Application callbacks run with no library mutex held, except the content reader (under the
     response mutex, documented) and the completion notification issued by
     `resume_suspended_connections` for an upgraded connection. -/
@@ -173,6 +185,14 @@ example : rankOk (mutFn "MHD_ip_count_lock" (fun es => es ++
 example : blockingOk (mutFn "MHD_stop_daemon" (fun es => es.map (fun e => { e with may := [.cleanup_connection_mutex] })) table) = false := by
   decide +kernel
 example : stopSequenceOk (mutFn "MHD_stop_daemon" List.reverse table) = false := by decide +kernel
+-- the flag is cleared outside the critical section / the poll loop discards the resume result
+example : haveNewPairedOk (mutFn "new_connections_list_process_" (fun es => es.map (fun e => { e with must := [] })) table) = false := by
+  decide +kernel
+example : resumeTimeoutOk (resumeWaitSites.map (fun s => if s.1 == "MHD_poll_all" then (s.1, s.2.1, s.2.2.1, false) else s)) = false := by
+  decide +kernel
+-- the response mutex is released before the shared data block is read
+example : locksetOk (mutFn "MHD_connection_handle_write" (fun es => es.map (fun e => { e with may := [], must := [] })) table) = false := by
+  decide +kernel
 -- a callee assumes a lock that a call site does not hold
 example : contextOk (table.map (fun en =>
     if en.name == "close_connection" then { en with entryMust := [.cleanup_connection_mutex] } else en)) = false := by
